@@ -123,6 +123,19 @@ fn run_case(target: &str, seed: u64, len: usize) -> (String, String) {
             }
         }
         "OffsetAmpPerChannel::next" | "OffsetAmpPerChannel::is_exhausted" | "Signal::offset_amp_per_channel" => {
+            {   // wide integer formats (more significant bits than their float companion holds): exact integer addition required
+                let v32: Vec<[i32; 2]> = (0..len).map(|i| [16_777_217 + i as i32 * 3, -1_234_567_891 + i as i32]).collect();
+                let o32 = [1_000_000_007i32, 5];
+                let mut s = signal::from_iter(v32.clone()).offset_amp_per_channel(o32);
+                for i in 0..len { rec!(s.next(), [v32[i][0] + o32[0], v32[i][1] + o32[1]]); }
+                let v64: Vec<[u64; 1]> = (0..len).map(|i| [(1u64 << 63) + (1u64 << 60) + 12_345 + i as u64]).collect();
+                let mut s = signal::from_iter(v64.clone()).offset_amp_per_channel([3i64]);
+                for i in 0..len { rec!(s.next(), [v64[i][0] + 3]); }
+                let mut s = signal::from_iter(v64.clone()).offset_amp(-7i64);
+                for i in 0..len { rec!(s.next(), [v64[i][0] - 7]); }
+                let mut s = signal::from_iter(v32.clone()).add_amp(signal::from_iter(v32.iter().map(|_| [1i32, -1]).collect::<Vec<_>>()));
+                for i in 0..len { rec!(s.next(), [v32[i][0] + 1, v32[i][1] - 1]); }
+            }
             let (sa, ca) = src(a.clone());
             let off = if seed % 4 == 3 { [0, 0] } else { [(seed % 100) as i16 - 50, 7] };
             let mut s = sa.offset_amp_per_channel(off);
@@ -463,7 +476,13 @@ fn run_case(target: &str, seed: u64, len: usize) -> (String, String) {
                 } else {
                     let mut conv = sa.scale_hz(interp, r0);
                     let mut p = 0.0f64;
+                    let mut r0 = r0;
                     for _k in 0..n_out {
+                        // the ratio setters mid-stream: each SETS the ratio (1/scale, scale, source/target) for subsequent outputs
+                        if _k == 3 { conv.set_sample_hz_scale(2.0); r0 = 0.5; }
+                        if _k == 5 { conv.set_playback_hz_scale(1.5); r0 = 1.5; }
+                        if _k == 7 { conv.set_hz_to_hz(3.0, 4.0); r0 = 0.75; }
+                        if _k == 9 { conv.set_sample_hz_scale(0.25); r0 = 4.0; }
                         let fl = p.floor() as usize;
                         let x = p - p.floor();
                         rec!(conv.is_exhausted(), ca.get() >= data.len() && (p - ((ca.get() - prime) as f64)) >= 1.0);
@@ -576,6 +595,15 @@ fn run_case(target: &str, seed: u64, len: usize) -> (String, String) {
                     let f = w.next().unwrap();
                     let p = (i as f64 / (n as f64 - 1.0)) % 1.0;
                     rec!((f[0], f[1]), (p + 1.5, p + 1.5));
+                }
+            }
+            // lengths beyond 2^32 (lazy iterator: only the first frames are pulled): phases i/(n-1) within 1e-9
+            for &n in &[(1usize << 32) + 3, (1usize << 32) + 1, (1usize << 40) + 7] {
+                let mut w: Window<[f64; 1], Probe> = Window::new(n);
+                for i in 0..4 {
+                    let f = w.next().unwrap();
+                    let p = i as f64 / (n as f64 - 1.0);
+                    rec!((f[0] - (p + 1.5)).abs() < 1e-9, true);
                 }
             }
             // hann window of n frames: 0 at both ends, symmetric, 1 in the middle (odd n)
